@@ -71,7 +71,18 @@ TEnd == /\ IsEvent("end")
                                     [f |-> <<w.hist[j].l, w.hist[j].r>>, obs |-> ObsOf(Content(tree, w.hist[j]))]]
                 IN IF okpos /\ okrc /\ okobj /\ okcfg THEN UNCHANGED diverged
                    ELSE diverged' = TRUE /\ Mismatch([rc |-> w.rc, callbacks |-> Len(w.log), ents |-> ObsOf(w.cfg).ents])
-Next == TBegin \/ TCallback \/ TEnd
+\* C12 under a non-default drop-in directory list: the history as delivered (file name + own content per member)
+\* folded left to right, skipping a member when a later one has the same name, must reproduce every merged result
+NameMasked(h, j) == \E j2 \in (j+1)..Len(h) : h[j2].name = h[j].name
+THistFold == /\ IsEvent("histfold")
+             /\ UNCHANGED <<tree, faults, pos, failed>>
+             /\ LET h == Tr[l].hist
+                    idx == SelectSeq([j \in 1..Len(h) |-> j], LAMBDA j : ~NameMasked(h, j))
+                    folded == IF idx = <<>> THEN <<>> ELSE FoldMerge([n \in 1..Len(idx) |-> h[idx[n]].ents])
+                    ok == \A i \in 1..Len(Tr[l].results) : Seq2Set(Tr[l].results[i]) = EntSet(folded) IN
+                IF ok /\ Tr[l].hist2_same THEN UNCHANGED diverged
+                ELSE diverged' = diverged /\ Mismatch([folded |-> ObsOf(folded).ents])
+Next == TBegin \/ TCallback \/ TEnd \/ THistFold
 Spec == Init /\ [][Next]_vars
 Accepted == TLCGet("stats").diameter - 1 = Len(Tr)
 =============================================================================
